@@ -230,3 +230,34 @@ def upd_fields(rec, base):
             d[s[1]] = v
         return d
     return None
+
+
+def has_dec(t):
+    if isinstance(t, tuple):
+        if t and t[0] == 'dec': return True
+        if t and t[0] == 'div': return True
+        return any(has_dec(x) for x in t)
+    return False
+
+def integral_evidence(p, X):
+    """why the Decimal X is a whole number on path p (side condition of erasing to_u128, lemma L-int); None if nothing shows it"""
+    if X[0] == 'round' and X[2] == I(0): return 'rounded to 0 decimal places'
+    if not has_dec(X): return 'built from integers only'
+    if p.holds(EQ(('fract', X), I(0)), True) is not None: return 'guard fract(x) == 0'
+    if X[0] in ('sub', 'add'):
+        a = integral_evidence(p, X[1]); b = integral_evidence(p, X[2])
+        if a and b: return 'difference/sum of whole numbers'
+    return None
+
+def check_exact_conversions(eng, PROP, p):
+    """every Decimal -> integer conversion whose result is used on a successful path converts a whole number (to_u128 truncates silently)"""
+    n = 0
+    for f, site, _ in p.facts:
+        if f[0] == 'is' and f[2] == 'Some' and f[1][0] == 'rcall' and f[1][1] == 'to_u128':
+            X = f[1][2][0]
+            why = integral_evidence(p, X)
+            n += 1
+            eng.ob(why is not None, PROP, 'exact-conversion', '%s:%s' % (p.variant, K(X)[:120]),
+                   '%s: %s is converted to an integer with to_u128 (which truncates) on a path that does not establish it is a whole number' % (p.variant, K(X)[:160]), where=site, detail=p.describe(12),
+                   sample={'rule': 'exact-conversion', 'request': p.variant, 'value': K(X)[:100], 'evidence': why})
+    return n
